@@ -96,6 +96,25 @@ ALPHA = [b"$a", b"$b", b"f", b"if", b"else", b"while", b"for", b"function", b"re
          b".", b"==", b"<", b"?", b":", b"::", b"->", b"=>", b"!", b"&", b"$", b"\\", b"@", b"#", b"...", b"??", b"++"]
 
 
+def unbalanced(toks, br):
+    """'' when the ( ) [ ] { } tokens nest properly, else a short description keyed by the offending bracket"""
+    stack = []
+    for t in toks:
+        ty = t[0]
+        if ty in br["open"]:
+            stack.append(ty)
+        elif ty in br["close"]:
+            if not stack or br["open"][stack[-1]] != ty:
+                return "%s unmatched closer at byte %d" % (br["close"][ty], t[1])
+            stack.pop()
+    if stack:
+        return "%s never closed" % br["name"][stack[-1]]
+    return ""
+
+
+BR = {"open": {}, "close": {}, "name": {}}
+
+
 def token_mutants(rng, data, toks, nprefix, ndel, ndup):
     """prefixes at token boundaries, single-token deletions and duplications (spans from the real lexer)"""
     res = []
@@ -152,7 +171,7 @@ def main(ck):
     if stmt_bin is None:
         ck.broken.append("harness-build")
         ck.finish(evaluations=0, distinct_nontrivial=0, rule="harness did not build")
-    ck.prove(deps=["Lexer", "gen", "C18", "C04", "Stmt"])
+    ck.prove(deps=["Lexer", "gen", "C18", "C04", "Stmt"], extra_targets=["Stmt/Model.vo", "Stmt/Run.vo", "Stmt/Proofs.vo"])
     ck.log("proofs checked")
     quick = ck.tier == "quick"
 
@@ -163,6 +182,11 @@ def main(ck):
             cases = [rp["case"]]
     else:
         # (iii) exhaustive short sources over a token alphabet (+ every keyword of the token table), executed too
+        K = tbl["consts"]
+        for a, b, nm in (("LPAREN", "RPAREN", "("), ("LBRACKET", "RBRACKET", "["), ("LBRACE", "RBRACE", "{")):
+            BR["open"][K[a]] = K[b]
+            BR["close"][K[b]] = {"(": ")", "[": "]", "{": "}"}[nm]
+            BR["name"][K[a]] = nm
         kw_lo, kw_hi = tbl["consts"]["KEYWORD_START"], tbl["consts"]["KEYWORD_END"]
         alpha = list(ALPHA)
         for ty, hx in tbl["defs"]:
@@ -274,6 +298,12 @@ def main(ck):
             ck.violation("parse-timeout:%s:%s" % (c["origin"], c["mut"][:24]), rep)
         elif p == "ok":
             stats["parse-ok"] += 1
+            # an accepted source has balanced, properly nested ( ) [ ] { } tokens (no closing clause is missing)
+            unb = unbalanced(o.get("toks") or [], BR)
+            if unb:
+                stats["accepted-unbalanced"] = stats.get("accepted-unbalanced", 0) + 1
+                rep["clause"] = "the source was accepted although its bracket tokens do not balance: " + unb
+                ck.violation("accepted-unbalanced:%s" % unb.split(" ")[0], rep)
         elif p == "error":
             stats["parse-error"] += 1
             if not o.get("pline"):
